@@ -49,7 +49,7 @@ def _seed():
 def _wrap_spin(mod):
   # a greenlet of the code under test that spins on a dead simulated socket without ever yielding would hang the
   # run; the socket counts such calls (deterministically), stops the spin and the case is reported here
-  from vf.world import Violation, SpinDetected
+  from vf.world import Violation, SpinDetected, ApiRaised
   inner = mod.execute
 
   def execute(plan):
@@ -57,6 +57,8 @@ def _wrap_spin(mod):
       return inner(plan)
     except SpinDetected as e:
       raise Violation(mod.ID, 'busy-loop', str(e))
+    except ApiRaised as e:
+      raise Violation(mod.ID, 'close-raised', str(e))
   mod.execute = execute
 
 
